@@ -2,6 +2,8 @@
 from __future__ import annotations
 
 import json
+import multiprocessing
+import os
 import time
 from typing import List
 
@@ -24,19 +26,40 @@ MANIFEST = {
             "from the source (Gen/FileSystem.lean, obligations C15_gen_*) + differential rig R-fs (bounded-exhaustive, then random) "
             "on the real FileSystem, directly, under a node, and through the agent actions' form_request. Deepened: the Python-API "
             "entry points (create_file(force), copy_file, move_file, add_file(force), delete_*_by_id, remove_file_by_id) are operations "
-            "of the model too and keep Inv in any interleaving with requests and ticks (move_file under the stated side condition that "
-            "the moved uuid is new to the destination, which the rig checks on the real objects); Folder.restore_file and "
+            "of the model too and keep Inv in any interleaving with requests and ticks — unconditionally since round 3: `no file uuid "
+            "in two folders` (XDisj) is proved to be preserved by every request, tick, API call and node-level event, and it implies "
+            "the side condition move_file needed (C15_any_inv_reachable_full, C15_file_in_one_folder); Folder.restore_file and "
             "Folder.add_file are translated statement by statement from the source and proved equal to the model; num_access and the "
             "folder scan countdown are carried in a passive ledger compared on every operation; truncated / over-long / misspelt "
-            "request paths are answered by the model's total `resolve` and compared.",
+            "request paths are answered by the model's total `resolve` and compared. Round 3: the glue between a Node and its file "
+            "system is part of the model (Model/FileSystemNode.lean) with the power state as an INPUT flag: Node.pre_timestep resets the "
+            "file system in every power state, Node.apply_timestep steps it (and completes the node scan = FileSystem.scan(instant)) "
+            "only while ON, requests are refused while not ON. Proved for EVERY power history and every sequence of requests, API "
+            "calls, node scans and ticks: the counters are zero after every Node.pre_timestep and that is what the node reports "
+            "(C15_counters_start_at_zero); at the end of a tick they are the tally of THAT tick's operations only "
+            "(C15_node_counters_count_this_tick, with C15_api_counters_step for the API calls); a node that is not ON is frozen; Inv at "
+            "node level. The guard table is regenerated from Node.pre_timestep / apply_timestep / describe_state / the file_system and "
+            "os routes, the Simulation -> Network -> node call chain and the list of all writers of the counters (Gen/FileSystemNode.lean, "
+            "C15_gen_node_glue / _sites / _counter_writers). The full request table (23 shapes) is regenerated from the three "
+            "_init_request_manager methods; for ANY path addressed to a folder or file that is not live, other than the explicit create / "
+            "restore requests, the node's whole state incl. every num_access is unchanged and the answer is not success "
+            "(C15_path_on_deleted_folder/file_changes_nothing). node-file-create / node-folder-create on a live namesake: refused or "
+            "no-op; on a deleted namesake: exactly one new live item, the deleted one untouched; no file/folder action ever answers "
+            "with an exception (C15_action_*). Every method of the four classes is classified modelled (and then read by a tie) or "
+            "listed unmodelled (C15_gen_method_inventory, C15_modelled_iff_tied). Rig: additional surface `net` = a real Computer in a "
+            "small network driven only through sim.pre_timestep / apply_request / apply_timestep with shutdown / startup / reset "
+            "requests (durations 0..3) and node scans interleaved with file operations and agent actions in the same tick; the "
+            "counters are read from the simulation's describe_state() and through a HostObservation at the start and end of every tick.",
     "note": "C15-specific: health status, red-scan timers, sizes and file types are not modelled (no influence on structure "
-            "or response status); cross-folder uuid disjointness is not part of Inv (hypothesis of the move_file theorem); six leaf "
-            "handlers without a validator still raise IndexError on a truncated path (modelled as `raised`; C05's matter).",
+            "or response status); six leaf "
+            "handlers without a validator still raise IndexError on a truncated path (modelled as `raised`; C05's matter); the power "
+            "machine is C12's: here the power flag is an input read from the real node, theorems hold for every flag history; the "
+            "database service's direct writes to the counters (ENCRYPT query) are listed, not modelled.",
     "technique": "Lean 4 invariant proof over an executable file-system model; model tied by regenerated tables and a differential rig",
     "design_ref": "5/C15",
 }
 MODULES = ["PrimaiteModel.Props.C15", "PrimaiteModel.Props.C15Api", "PrimaiteModel.Props.C15Node", "PrimaiteModel.Props.C15Verbs",
-           "PrimaiteModel.Props.C15Actions", "PrimaiteModel.Props.C15Inventory"]
+           "PrimaiteModel.Props.C15Actions", "PrimaiteModel.Props.C15Inventory", "PrimaiteModel.Props.C15Disjoint"]
 EXE = "drv_c15"
 
 
@@ -46,6 +69,11 @@ H = rig.HEAD  # protocol lines before the first operation
 def _run_case(case: dict):
     impl, verdicts, flags = rig.run_impl(case)
     return impl, verdicts, rig.model_lines(case, flags)
+
+
+def _impl_only(case: dict):
+    """Implementation side of one case (runs in a worker process; cases are independent and deterministic)."""
+    return rig.run_impl(case)
 
 
 def _diff_case(case: dict):
@@ -149,17 +177,24 @@ def run(ctx: Ctx):
             for k, ops in enumerate(rig.exhaustive(rig.node_alphabet(), depth)):
                 yield f"exhN{depth}:{c}:{k}", {"surface": "net", "restore_duration": 1, "node": dict(cfg, actions=bool(k % 2)), "ops": ops}
         rng4 = ctx.rng.fork("fs-net")
-        for k in range(ctx.scale(700, 12000)):
+        for k in range(ctx.scale(700, 6000)):
             yield f"net:{k}", rig.gen_net_case(rng4, max_ticks=ctx.scale(10, 14))
 
     state = {"agree": 0, "total": 0, "reported": 0, "t_impl": 0.0, "t_model": 0.0, "actions": set()}
+
+    # the implementation side of a chunk is spread over a few forked workers (the machine is shared: at most 3 + this process)
+    workers = max(1, min(3, int(os.environ.get("C15_WORKERS", "3")), (os.cpu_count() or 2) - 1))
+    pool = multiprocessing.get_context("fork").Pool(workers) if workers > 1 else None
+    ctx.notes.append(f"implementation side run by {workers} worker process(es)")
 
     def process(cases):
         # implementation side, then ONE driver run per chunk
         t0 = time.time()
         impl_all, verd_all, lines_all, bounds = [], [], [], []
-        for name, case in cases:
-            impl, verdicts, lines = _run_case(case)
+        only = [c for _, c in cases]
+        results = pool.map(_impl_only, only, chunksize=max(1, min(250, len(only) // (workers * 4) + 1))) if pool else map(_impl_only, only)
+        for (name, case), (impl, verdicts, flags) in zip(cases, results):
+            lines = rig.model_lines(case, flags)
             bounds.append((len(lines_all), len(lines)))
             lines_all += lines
             impl_all.append(impl)
@@ -206,6 +241,9 @@ def run(ctx: Ctx):
             chunk = []
     if chunk:
         process(chunk)
+    if pool:
+        pool.close()
+        pool.join()
     registered = rig.registered_file_actions()
     ctx.oblige("rig:every registered file/folder action is driven through form_request", "correspondence",
                registered == state["actions"], f"registered {sorted(registered)}; driven {sorted(state['actions'])}")
